@@ -7,23 +7,6 @@ import Midgard.Proofs.DatasetSubset
 
 namespace Midgard.Dataset
 
-/-- `len(field.data)` is the length of an array (and not of a collection without fields) -/
-def Field.lenDef : Field → Bool
-  | .leaf .. => true
-  | .coll _ _ _ fs => headDef fs
-where headDef : List Field → Bool
-  | [] => false
-  | f :: _ => Field.lenDef f
-
-/-- no collection starts with a collection that has no array to take its length from
-(`Collection.__len__` looks at the first field only) -/
-def ShapeOK : Field → Prop
-  | .leaf .. => True
-  | .coll _ _ _ fs => (fs = [] ∨ Field.lenDef.headDef fs = true) ∧ ShapeOKs fs
-where ShapeOKs : List Field → Prop
-  | [] => True
-  | f :: fs => ShapeOK f ∧ ShapeOKs fs
-
 /-- the field tree after the selection, field by field: same names, kinds, units, levels and
 order; every array the image of the old one; every `num_obs` the number of selected rows -/
 def FieldImg (idx : Index) (h : Heap) : Field → Field → Prop
@@ -53,29 +36,6 @@ theorem FieldsImg.ext {idx : Index} {h h' : Heap} (e : HeapExt h h') :
     exact ⟨f', r', h1, FieldImg.ext e f f' h2, FieldsImg.ext e fs r' h3⟩
 end
 
-mutual
-theorem FieldImg.len {idx : Index} {h : Heap} : ∀ (f f' : Field), FieldImg idx h f f' → f.lenDef = true →
-    Field.len h f' = idx.count
-  | .leaf n k o no u l, f', hh, _ => by
-    simp only [FieldImg] at hh
-    obtain ⟨o', no', rfl, h2, _⟩ := hh
-    simp only [Field.len]
-    exact h2.good.objLen
-  | .coll n no l fs, f', hh, hd => by
-    simp only [FieldImg] at hh
-    obtain ⟨no', fs', rfl, h2, _⟩ := hh
-    simp only [Field.len]
-    exact FieldsImg.len fs fs' h2 (by simpa [Field.lenDef] using hd)
-theorem FieldsImg.len {idx : Index} {h : Heap} : ∀ (fs fs' : List Field), FieldImg.FieldsImg idx h fs fs' →
-    Field.lenDef.headDef fs = true → Field.len.lenL h fs' = idx.count
-  | [], _, _, hd => by simp [Field.lenDef.headDef] at hd
-  | f :: fs, fs', hh, hd => by
-    simp only [FieldImg.FieldsImg] at hh
-    obtain ⟨f', r', rfl, h2, _⟩ := hh
-    simp only [Field.len.lenL]
-    exact FieldImg.len f f' h2 (by simpa [Field.lenDef.headDef] using hd)
-end
-
 theorem FieldsImg.nil_iff {idx : Index} {h : Heap} {fs fs' : List Field} (hh : FieldImg.FieldsImg idx h fs fs') :
     fs' = [] ↔ fs = [] := by
   cases fs with
@@ -85,12 +45,42 @@ theorem FieldsImg.nil_iff {idx : Index} {h : Heap} {fs fs' : List Field} (hh : F
     obtain ⟨f', r', rfl, _, _⟩ := hh
     simp
 
+/-! the number of rows `Collection.__len__` reads off an image is the number of selected rows (also for a
+collection without fields: its field remembers the count) -/
+mutual
+theorem FieldImg.len {idx : Index} {h : Heap} : ∀ (f f' : Field), FieldImg idx h f f' → Field.len h f' = idx.count
+  | .leaf n k o no u l, f', hh => by
+    simp only [FieldImg] at hh
+    obtain ⟨o', no', rfl, h2, _⟩ := hh
+    simp only [Field.len]
+    exact h2.good.objLen
+  | .coll n no l fs, f', hh => by
+    simp only [FieldImg] at hh
+    obtain ⟨no', fs', rfl, h2, h3⟩ := hh
+    simp only [Field.len]
+    split
+    · exact h3
+    · rename_i hne
+      exact FieldsImg.len fs fs' h2 (by
+        intro he
+        have := (FieldsImg.nil_iff h2).mpr he
+        simp [this] at hne)
+theorem FieldsImg.len {idx : Index} {h : Heap} : ∀ (fs fs' : List Field), FieldImg.FieldsImg idx h fs fs' →
+    fs ≠ [] → Field.len.lenL h fs' = idx.count
+  | [], _, _, hd => absurd rfl hd
+  | f :: fs, fs', hh, _ => by
+    simp only [FieldImg.FieldsImg] at hh
+    obtain ⟨f', r', rfl, h2, _⟩ := hh
+    simp only [Field.len.lenL]
+    exact FieldImg.len f f' h2
+end
+
 /-! **`FieldType.subset` / `CollectionField._subset` build the image of the field (tree).** -/
 mutual
 theorem subsetField_spec (idx : Index) : ∀ (f : Field) (s : St) (f' : Field) (s' : St),
-    subsetField idx f s = .ok (f', s') → MemoInv idx s → ShapeOK f →
+    subsetField idx f s = .ok (f', s') → MemoInv idx s →
     StepOK idx s s' ∧ FieldImg idx s'.heap f f'
-  | .leaf n k o no u l, s, f', s', h, hm, _ => by
+  | .leaf n k o no u l, s, f', s', h, hm => by
     simp only [subsetField] at h
     split at h
     · simp at h
@@ -106,13 +96,12 @@ theorem subsetField_spec (idx : Index) : ∀ (f : Field) (s : St) (f' : Field) (
       refine ⟨key.1, ?_⟩
       simp only [FieldImg]
       exact ⟨o', _, rfl, key.2, key.2.good.objLen⟩
-  | .coll n no l fs, s, f', s', h, hm, hs => by
+  | .coll n no l fs, s, f', s', h, hm => by
     simp only [subsetField] at h
-    simp only [ShapeOK] at hs
     split at h
     · simp at h
     · rename_i fs' s1 hr
-      have key := subsetFields_spec idx fs s fs' s1 hr hm hs.2
+      have key := subsetFields_spec idx fs s fs' s1 hr hm
       split at h
       · split at h
         · simp at h
@@ -127,21 +116,16 @@ theorem subsetField_spec (idx : Index) : ∀ (f : Field) (s : St) (f' : Field) (
           intro he
           have := (FieldsImg.nil_iff key.2).mpr he
           simp [this] at hne
-        have hd : Field.lenDef.headDef fs = true := by
-          rcases hs.1 with h0 | h0
-          · exact absurd h0 hfs
-          · exact h0
-        exact ⟨key.1, by simp only [FieldImg]; exact ⟨_, fs', rfl, key.2, FieldsImg.len fs fs' key.2 hd⟩⟩
+        exact ⟨key.1, by simp only [FieldImg]; exact ⟨_, fs', rfl, key.2, FieldsImg.len fs fs' key.2 hfs⟩⟩
 theorem subsetFields_spec (idx : Index) : ∀ (fs : List Field) (s : St) (fs' : List Field) (s' : St),
     subsetField.subsetFields idx fs s = .ok (fs', s') → MemoInv idx s →
-    ShapeOK.ShapeOKs fs → StepOK idx s s' ∧ FieldImg.FieldsImg idx s'.heap fs fs'
-  | [], s, fs', s', h, hm, _ => by
+    StepOK idx s s' ∧ FieldImg.FieldsImg idx s'.heap fs fs'
+  | [], s, fs', s', h, hm => by
     simp only [subsetField.subsetFields, Except.ok.injEq, Prod.mk.injEq] at h
     obtain ⟨rfl, rfl⟩ := h
     exact ⟨⟨HeapExt.refl _, hm⟩, by simp [FieldImg.FieldsImg]⟩
-  | f :: fs, s, fs', s', h, hm, hs => by
+  | f :: fs, s, fs', s', h, hm => by
     simp only [subsetField.subsetFields] at h
-    simp only [ShapeOK.ShapeOKs] at hs
     split at h
     · simp at h
     · rename_i f1 s1 h1
@@ -150,8 +134,8 @@ theorem subsetFields_spec (idx : Index) : ∀ (fs : List Field) (s : St) (fs' : 
       · rename_i fs1 s2 h2
         simp only [Except.ok.injEq, Prod.mk.injEq] at h
         obtain ⟨rfl, rfl⟩ := h
-        obtain ⟨⟨e1, m1⟩, i1⟩ := subsetField_spec idx f s f1 s1 h1 hm hs.1
-        obtain ⟨⟨e2, m2⟩, i2⟩ := subsetFields_spec idx fs s1 fs1 s2 h2 m1 hs.2
+        obtain ⟨⟨e1, m1⟩, i1⟩ := subsetField_spec idx f s f1 s1 h1 hm
+        obtain ⟨⟨e2, m2⟩, i2⟩ := subsetFields_spec idx fs s1 fs1 s2 h2 m1
         refine ⟨⟨e1.trans e2, m2⟩, ?_⟩
         simp only [FieldImg.FieldsImg]
         exact ⟨f1, fs1, rfl, FieldImg.ext e2 f f1 i1, i2⟩
@@ -206,58 +190,7 @@ theorem FieldsImg.rect {idx : Index} {h : Heap} : ∀ (fs fs' : List Field), Fie
     exact ⟨FieldImg.rect f f' h2, FieldsImg.rect fs r' h3⟩
 end
 
-/-! ### the well-formedness conditions survive -/
-
-mutual
-theorem FieldImg.lenDef {idx : Index} {h : Heap} : ∀ (f f' : Field), FieldImg idx h f f' → f'.lenDef = f.lenDef
-  | .leaf n k o no u l, f', hh => by
-    simp only [FieldImg] at hh
-    obtain ⟨o', no', rfl, _, _⟩ := hh
-    simp [Field.lenDef]
-  | .coll n no l fs, f', hh => by
-    simp only [FieldImg] at hh
-    obtain ⟨no', fs', rfl, h2, _⟩ := hh
-    simp only [Field.lenDef]
-    exact FieldsImg.headDef fs fs' h2
-theorem FieldsImg.headDef {idx : Index} {h : Heap} : ∀ (fs fs' : List Field), FieldImg.FieldsImg idx h fs fs' →
-    Field.lenDef.headDef fs' = Field.lenDef.headDef fs
-  | [], fs', hh => by simp only [FieldImg.FieldsImg] at hh; subst hh; rfl
-  | f :: fs, fs', hh => by
-    simp only [FieldImg.FieldsImg] at hh
-    obtain ⟨f', r', rfl, h2, _⟩ := hh
-    simp only [Field.lenDef.headDef]
-    exact FieldImg.lenDef f f' h2
-end
-
-mutual
-theorem FieldImg.shape {idx : Index} {h : Heap} : ∀ (f f' : Field), FieldImg idx h f f' → ShapeOK f → ShapeOK f'
-  | .leaf n k o no u l, f', hh, _ => by
-    simp only [FieldImg] at hh
-    obtain ⟨o', no', rfl, _, _⟩ := hh
-    simp [ShapeOK]
-  | .coll n no l fs, f', hh, hs => by
-    simp only [FieldImg] at hh
-    obtain ⟨no', fs', rfl, h2, _⟩ := hh
-    simp only [ShapeOK] at hs ⊢
-    refine ⟨?_, FieldsImg.shape fs fs' h2 hs.2⟩
-    rcases hs.1 with h0 | h0
-    · exact Or.inl ((FieldsImg.nil_iff h2).mpr h0)
-    · exact Or.inr (by rw [FieldsImg.headDef fs fs' h2]; exact h0)
-theorem FieldsImg.shape {idx : Index} {h : Heap} : ∀ (fs fs' : List Field), FieldImg.FieldsImg idx h fs fs' →
-    ShapeOK.ShapeOKs fs → ShapeOK.ShapeOKs fs'
-  | [], fs', hh, _ => by simp only [FieldImg.FieldsImg] at hh; subst hh; simp [ShapeOK.ShapeOKs]
-  | f :: fs, fs', hh, hs => by
-    simp only [FieldImg.FieldsImg] at hh
-    obtain ⟨f', r', rfl, h2, h3⟩ := hh
-    simp only [ShapeOK.ShapeOKs] at hs ⊢
-    exact ⟨FieldImg.shape f f' h2 hs.1, FieldsImg.shape fs r' h3 hs.2⟩
-end
-
 /-! ### the dataset level -/
-
-/-- a dataset is well formed on a heap -/
-structure DSWF (d : DS) : Prop where
-  shape : ShapeOK.ShapeOKs d.fields
 
 /-- a dataset is a rectangular table: every field (nested ones, attached `other`/`ref_pos` objects
 included) has `num_obs` rows -/
@@ -267,9 +200,9 @@ def Rect (h : Heap) (d : DS) : Prop := RectField.RectFields h d.numObs d.fields
 old one under the selection, the declared number of observations is the number of selected
 rows, and the dataset is a rectangular table again — whether or not it was one before. -/
 theorem dsSubset_spec (idx : Index) (h : Heap) (d : DS) (h' : Heap) (d' : DS)
-    (hok : dsSubset idx h d = .ok (h', d')) (wf : DSWF d) :
+    (hok : dsSubset idx h d = .ok (h', d')) :
     HeapExt h h' ∧ FieldImg.FieldsImg idx h' d.fields d'.fields ∧ d'.numObs = idx.count ∧
-    Rect h' d' ∧ DSWF d' := by
+    Rect h' d' := by
   simp only [dsSubset] at hok
   split at hok
   · simp at hok
@@ -280,10 +213,9 @@ theorem dsSubset_spec (idx : Index) (h : Heap) (d : DS) (h' : Heap) (d' : DS)
       simp only [Except.ok.injEq, Prod.mk.injEq] at hok
       obtain ⟨rfl, rfl⟩ := hok
       have hm : MemoInv idx { heap := h } := by intro k v hkv; simp at hkv
-      obtain ⟨⟨e, _⟩, hi⟩ := subsetFields_spec idx d.fields { heap := h } fs s hr hm wf.shape
+      obtain ⟨⟨e, _⟩, hi⟩ := subsetFields_spec idx d.fields { heap := h } fs s hr hm
       have hc : sel.length = idx.count := pick_length idx _ _ hsel
-      refine ⟨e, hi, hc, ?_, ?_⟩
-      · simp only [Rect]; rw [hc]; exact FieldsImg.rect d.fields fs hi
-      · exact ⟨FieldsImg.shape d.fields fs hi wf.shape⟩
+      refine ⟨e, hi, hc, ?_⟩
+      simp only [Rect]; rw [hc]; exact FieldsImg.rect d.fields fs hi
 
 end Midgard.Dataset
